@@ -86,7 +86,7 @@ impl<F: InnerFuture> TimerFuture<F> {
             !old(self).is_cleared && !old(w).cleared.contains(old(self).timer_id) ==> r == old(self).future.next() && !final(self).is_cleared, // [C13/timer-poll/an-uncleared-timer-defers-to-the-shells-answer]
 //@rule X12.pin-erasure * s/self\.get_mut\(\)/self/
 //@rule X12.pin-erasure * s/Pin::new\(&mut this\.future\)\.poll\(cx\)/this.future.poll(Tracked(w), cx)/
-//@rule X6.world * s/lock\.remove\(/lock.remove(Tracked(w), /
+//@rule X6.world * s/\b(\w+)\.remove\(&/\1.remove(Tracked(w), &/
 //@end
 }
 
